@@ -27,6 +27,9 @@ OPS = [
 TRAITS = [
     ("trait_quantity", 'static_assert(!std::is_convertible<Q1, Q2>::value && !std::is_constructible<Q2, Q1>::value && !std::is_assignable<Q2 &, Q1>::value && !VfHasCommon<Q1, Q2>::value, "vf");'),
     ("trait_point", 'static_assert(!std::is_convertible<P1, P2>::value && !std::is_constructible<P2, P1>::value && !std::is_convertible<P2, P1>::value, "vf");'),
+    # the variadic spellings of the dimension question, with the odd one out in every position
+    ("trait_has_same_dimension", 'using U1b = decltype(U1{} * mag<2>()); static_assert(!has_same_dimension(U1{}, U2{}) && !has_same_dimension(U1{}, U1b{}, U2{}) && !has_same_dimension(U2{}, U1{}, U1b{}) && !has_same_dimension(U1{}, U2{}, U1b{}) '
+                                 '&& !HasSameDimension<U1, U1b, U1, U2>::value && !HasSameDimension<U1, U1b, U2, U2>::value && !HasSameDimension<U1, U1, U2, U2, U1>::value && has_same_dimension(U1{}, U1b{}, U1{}) && HasSameDimension<U1, U1b, U1b, U1>::value, "vf");'),
 ]
 TRAITS_CONTROL = [
     ("trait_quantity", 'static_assert(std::is_convertible<Q1, Q2>::value && std::is_constructible<Q2, Q1>::value && VfHasCommon<Q1, Q2>::value, "vf");'),
@@ -41,6 +44,10 @@ PRE_TMPL = r'''
 #include <utility>
 template <typename A, typename B, typename = void> struct VfHasCommon : std::false_type {};
 template <typename A, typename B> struct VfHasCommon<A, B, decltype(void(std::declval<std::common_type_t<A, B>>()))> : std::true_type {};
+// user-defined units of different dimensions that each carry a non-zero origin (so every origin comparison the library might form is between unlike quantities)
+struct VfDeck : au::Meters { static constexpr auto origin() { return au::meters(120); } };
+struct VfEpoch : au::Seconds { static constexpr auto origin() { return au::milli(au::seconds)(1500); } };
+struct VfGauge : au::Pascals { static constexpr auto origin() { return au::pascals(101325); } };
 '''
 
 REPS = ["double", "float", "int", "int64_t", "uint8_t", "int16_t", "uint32_t", "long double"]
@@ -110,6 +117,28 @@ def run(chk, which="C01"):
             probes.append({"id": pid, "op": name, "u1": s1, "u2": s2, "expect": "accept", "control": False, "dedup_key": key, "cpp20": False,
                            "text": probe_text(pid, s1, s2, rnd.choice(REPS), rnd.choice(REPS), text)})
             pid += 1
+    # units with non-zero origins on both sides of a dimension mismatch (the library's own Celsius/Fahrenheit and user-defined ones)
+    origin_pairs = [("au::Celsius", "VfDeck"), ("VfDeck", "au::Fahrenheit"), ("VfDeck", "VfEpoch"), ("VfEpoch", "au::Celsius"), ("VfGauge", "VfDeck"), ("au::Milli<au::Celsius>", "VfGauge"), ("VfEpoch", "au::Meters")]
+    for s1, s2 in origin_pairs if tier != "quick" else rnd.sample(origin_pairs, 4):
+        stats["mismatch_pairs"] += 1
+        key = ("mm", s1, s2)
+        for name, body, kind in OPS:
+            if kind in ("q20", "int", "equiv", "inv"):
+                continue
+            probes.append({"id": pid, "op": name, "u1": s1, "u2": s2, "expect": "reject", "control": False, "dedup_key": key, "cpp20": False, "text": probe_text(pid, s1, s2, rnd.choice(REPS), rnd.choice(REPS), body)})
+            pid += 1
+        for name, text in TRAITS:
+            probes.append({"id": pid, "op": name, "u1": s1, "u2": s2, "expect": "accept", "control": False, "dedup_key": key, "cpp20": False, "text": probe_text(pid, s1, s2, rnd.choice(REPS), rnd.choice(REPS), text)})
+            pid += 1
+    for s1, s2 in [("VfDeck", "au::Meters"), ("au::Kilo<au::Meters>", "VfDeck"), ("VfEpoch", "au::Seconds")]:
+        stats["control_pairs"] += 1
+        for name, body, kind in OPS:
+            if kind != "p":
+                continue
+            probes.append({"id": pid, "op": name, "u1": s1, "u2": s2, "expect": "accept", "control": True, "dedup_key": ("ctl", s1, s2), "cpp20": False, "text": probe_text(pid, s1, s2, "double", "double", body)})
+            pid += 1
+        probes.append({"id": pid, "op": "trait_point", "u1": s1, "u2": s2, "expect": "accept", "control": True, "dedup_key": ("ctl", s1, s2), "cpp20": False, "text": probe_text(pid, s1, s2, "double", "double", TRAITS_CONTROL[1][1])})
+        pid += 1
     # controls: same dimension, different unit, policy-permitted reps
     ctrl_dims = [d for d in dims if d != ()]
     rnd.shuffle(ctrl_dims)
